@@ -7,7 +7,10 @@ mkdir -p .cache/run .cache/replay .cache/audit evidence
 python3 tools/gen.py >/dev/null || exit 1
 ( cd lean && lake build ) || exit 1
 cp -n /repo/Cargo.lock harness/Cargo.lock 2>/dev/null
-( cd harness && cargo build --offline ) &
+cp -n /repo/Cargo.lock harness-aig/Cargo.lock 2>/dev/null
+# hxaig (C21, veryl-synthesizer with feature `aig`) shares the target dir, so it is built after hx; its failure is not
+# fatal here: `./check C21` reports it (the feature may not compile on a given /repo tree)
+( cd harness && cargo build --offline || exit 1; cd ../harness-aig && cargo build --offline || echo "setup: harness-aig did not build (see ./check C21)" ) &
 P1=$!
 ( RUSTFLAGS="--cfg veryl_verif" cargo build --offline --config profile.dev.package.blake3.opt-level=3 --manifest-path /repo/Cargo.toml --target-dir /verif/.cache/target-cli -p veryl -p veryl-ls ) &
 P2=$!
